@@ -498,4 +498,4 @@ def plan(tier, seed):
     kinds = ["gen", "new_defined", "plain_lazy_chain", "nested_type", "gen", "lazy_parent", "sub_defines_new", "diamond_new", "diamond_post_init"]
     if tier == "quick":
         return [{"shard": i, "sources": 2, "kinds": kinds[i % 9 :] + kinds[: i % 9], "single": 40, "double": 30, "priority_double": 160, "pct": 10, "threads": 3 if i % 4 == 3 else 2} for i in range(16)]
-    return [{"shard": i, "sources": 12, "kinds": kinds[i % 9 :] + kinds[: i % 9], "single": "all", "double": 1500, "pct": 300, "threads": 3 if i % 4 == 3 else 2} for i in range(32)]
+    return [{"shard": i, "sources": 6, "kinds": kinds[i % 9 :] + kinds[: i % 9], "single": "all", "double": 400, "pct": 100, "threads": 3 if i % 4 == 3 else 2} for i in range(32)]
